@@ -49,7 +49,8 @@ fn build(rng: &mut Rng, shape: u32, sizes_max: usize) -> Built {
     let mut m = dr::Module::new();
     let present = |bit: u32| shape & (1 << bit) != 0;
     if present(0) {
-        let mut h = dr::ModuleHeader::new(rng.u32());
+        // (bounds below the marker ids too: a header is emitted as it is)
+        let mut h = dr::ModuleHeader::new(if rng.chance(1, 3) { rng.below(120) as u32 } else { rng.u32() });
         h.version = rng.u32();
         h.generator = rng.u32();
         m.header = Some(h);
@@ -411,7 +412,11 @@ fn edit(m: &mut dr::Module, rng: &mut Rng) -> String {
                 if let Some(h) = m.header.as_mut() {
                     h.version = crate::genmod::random_version(rng);
                     h.generator = rng.u32();
-                    log.push("header version / generator changed");
+                    // a stale or placeholder bound is the module value's business: it is emitted as it is
+                    if rng.chance(1, 2) {
+                        h.bound = *rng.pick(&[0u32, 1, 2, 5, u32::MAX]);
+                    }
+                    log.push("header version / generator / bound changed");
                 }
             }
             1 => {
